@@ -1058,7 +1058,7 @@ impl Server {
 
       let prev = page_index.checked_sub(1);
 
-      let next = more.then_some(page_index + 1);
+      let next = more.then(|| page_index.checked_add(1)).flatten();
 
       Ok(if accept_json {
         Json(RunesHtml {
@@ -1858,7 +1858,7 @@ impl Server {
 
       let prev = page_index.checked_sub(1);
 
-      let next = more_collections.then_some(page_index + 1);
+      let next = more_collections.then(|| page_index.checked_add(1)).flatten();
 
       Ok(
         CollectionsHtml {
@@ -1897,7 +1897,7 @@ impl Server {
 
       let prev = page_index.checked_sub(1);
 
-      let next = more.then_some(page_index + 1);
+      let next = more.then(|| page_index.checked_add(1)).flatten();
 
       Ok(if accept_json {
         Json(api::Inscriptions {
@@ -1967,7 +1967,7 @@ impl Server {
       }
 
       let prev_page = page.checked_sub(1);
-      let next_page = more.then_some(page + 1);
+      let next_page = more.then(|| page.checked_add(1)).flatten();
 
       Ok(if accept_json {
         Json(api::Gallery {
@@ -2023,7 +2023,7 @@ impl Server {
 
       let prev_page = page.checked_sub(1);
 
-      let next_page = more_children.then_some(page + 1);
+      let next_page = more_children.then(|| page.checked_add(1)).flatten();
 
       Ok(if accept_json {
         Json(api::Children {
@@ -2071,7 +2071,7 @@ impl Server {
 
       let prev = page_index.checked_sub(1);
 
-      let next = more.then_some(page_index + 1);
+      let next = more.then(|| page_index.checked_add(1)).flatten();
 
       Ok(if accept_json {
         Json(api::Inscriptions {
@@ -2176,7 +2176,7 @@ impl Server {
 
       let prev_page = page.checked_sub(1);
 
-      let next_page = more.then_some(page + 1);
+      let next_page = more.then(|| page.checked_add(1)).flatten();
 
       Ok(
         ParentsHtml {
